@@ -69,8 +69,9 @@ class Models(object):
                 pass
             if h is None:
                 # generic receiver: dispatch on the runtime type of the first argument
-                if st in m.generics:
-                    st = m.generics[st]
+                st2 = m.resolve_param(st)
+                if st2 != st:
+                    st = st2
                     h = self.by_key.get((st, tb, key.method))
                 if h is None and args:
                     rt = m.runtime_type(args[0])
@@ -366,6 +367,12 @@ def it_next(m, itv, back=False):
                     return mk_iter('skip', cur, state=0), None
             ns, x = it_next(m, cur, back)
             return mk_iter('skip', ns, state=0), x
+        if k == 'peekable':
+            if s.state is not None:
+                x = s.state[0]
+                return mk_iter('peekable', s.src, state=None), x
+            ns, x = it_next(m, s.src, back)
+            return mk_iter('peekable', ns, state=None), x
         if k == 'once':
             if s.state is None:
                 return itv, None
